@@ -238,6 +238,26 @@ def init_store_checks(ctx, rule, only=None):
     return n
 
 
+def buildnone_flags(ctx, rule, only=None):
+    """A construct whose _build never reads the supplied object declares flagbuildnone = True in its __init__: enclosing Struct/Sequence
+    members are then built without demanding a key for them (else the KeyError is raised -- or swallowed by Select -- before the member runs)."""
+    M = ctx.model
+    n = 0
+    for ci in M.construct_classes():
+        if "_build" not in ci.methods or ci.relpath.endswith("debug.py") or ci.name == "Construct" or (only is not None and ci.name not in only):
+            continue
+        fi = M.method(ci.name, "_build")
+        ps = paths_of(ctx, fi, ci.name)
+        uses = any(N.contains(v, OBJ) for p in ps for e in p.events for v in e.a.values() if isinstance(v, tuple)) or any(p.retval is not None and N.contains(p.retval, OBJ) for p in ps)
+        if uses:
+            continue
+        ini = M.resolve(ci.name, "__init__")
+        fb = [e["value"] for p in (paths_of(ctx, ini, ci.name) if ini is not None else []) for e in p.events if e.kind == "SELFWRITE" and e["attr"] == "flagbuildnone"]
+        n += 1
+        ctx.ob(rule, fi, bool(fb) and all(v == N.TRUE for v in fb), "%s._build does not use the supplied object, and %s declares flagbuildnone = True" % (ci.name, ci.name), key="%s flagbuildnone" % ci.name)
+    return n
+
+
 def tunnel_checks(ctx, rule):
     M = ctx.model
     # Tunnel
@@ -439,7 +459,8 @@ def run(ctx):
         fp, a = sigs(cls, "_parse")
         fb, b = sigs(cls, "_build")
         ctx.ob("C01.R5", fb, a == b, "%s._parse and %s._build have the same summary modulo the direction of the sub-call" % (cls, cls), key="%s identical" % cls)
-    ctx.floor("C01.R5", 10)
+    buildnone_flags(ctx, "C01.R5")
+    ctx.floor("C01.R5", 10 + 8)
 
     # ---------------------------------------------------------------- R6
     subs = N.selfattr("subcons")
